@@ -141,7 +141,9 @@ class Functor(pg_object.Object, utils.Functor):
     )
     setattr(cls, '__signature__', call_signature)
 
-  def __new__(cls, *args, **kwargs):
+  def __new__(cls, /, *args, **kwargs):
+    # NOTE: `cls` is positional-only: the function may have a parameter of
+    # that name.
     instance = object.__new__(cls)
     if flags.should_call_functors_during_init():
       instance.__init__(*args, **kwargs)
